@@ -24,7 +24,6 @@ type arith_op =
 
 type checked_res =
 | RVal of coq_Z * bool
-| RPanic
 
 val overflowing : coq_Z -> checked_res
 
@@ -35,7 +34,6 @@ val exact_op : arith_op -> coq_Z -> coq_Z -> coq_Z option
 type vec_res =
 | VOk of coq_Z list
 | VOverflow
-| VPanic
 
 val checked_loop :
   arith_op -> (coq_Z * coq_Z) list -> bool list option -> coq_Z list -> bool
@@ -44,7 +42,6 @@ val checked_loop :
 type cell_res =
 | COk of coq_Z option
 | COverflow
-| CPanic
 
 type aexpr =
 | ACol of nat
